@@ -4,7 +4,7 @@ import json,sys
 pid=sys.argv[1]; wt=sys.argv[2]
 moddir={'C05':'collector/processor/concurrentbatchprocessor','C06':'collector/processor/concurrentbatchprocessor','C09':'collector/processor/concurrentbatchprocessor','C10':'collector/processor/concurrentbatchprocessor','C11':'collector/processor/concurrentbatchprocessor','C18':'collector/processor/concurrentbatchprocessor','C17':'collector/processor/obfuscationprocessor'}.get(pid,'. (the root module, packages under pkg/...)')
 p=[json.loads(l) for l in open('/verif/properties.jsonl') if json.loads(l)['id']==pid][0]
-print(f"""You are helping to test a verification tool by writing realistic bugs for it to find. Work ONLY inside the git worktree {wt} (a checkout of the Go repository open-telemetry/otel-arrow at a pinned commit) and the output directory {wt}-out. Do NOT read, list or touch /verif or /repo (not even to look): what you write must be independent of them. There is no network.
+print(f"""You are helping to test a verification tool by writing realistic bugs for it to find. Work ONLY inside the git worktree {wt} (a checkout of the Go repository open-telemetry/otel-arrow at a pinned commit) and the output directory {wt}-out. Do NOT read, list or touch /verif or /repo (not even to look): what you write must be independent of them. There is no network. Never use `git stash` (the stash is shared by all worktrees of the repository and other testers work next to you): keep variants as patch files instead.
 
 Every shell call must start with:  export GOFLAGS=-mod=mod GOPROXY=off GOSUMDB=off GOTOOLCHAIN=local; unset GOWORK
 (the repository has three Go modules: the root module with packages under pkg/..., collector/processor/concurrentbatchprocessor, and collector/processor/obfuscationprocessor; run go commands from inside the module directory). The module relevant here: {moddir}.
